@@ -54,8 +54,9 @@ Definition wtset_eqb (a b : wtset) : bool :=
   (w_rt a =? w_rt b) && bytes_eqb (w_path a) (w_path b) && (w_datalen a =? w_datalen b)
   && (w_vrl a =? w_vrl b) && bytes_eqb (w_buf a) (w_buf b) && list_eqb shape_eqb (w_shapes a) (w_shapes b).
 
+(** the exported ParseTGData after the fix: the checked decoder; an error is logged and (0, nil) returned *)
 Definition parse_agrees (k : case) (bs : list byte) : bool :=
-  match ParseTGData bs (k_root k) with
+  match ParseTGData_go bs (k_root k) with
   | Ok (tgid, ws) => (k_code k =? 0)%nat && (tgid =? k_ptgid k) && list_eqb wtset_eqb ws (mk_wts (map mk_cmd (k_cmds k)) (k_wts k))
   | Rejected => false
   | Panic => (k_code k =? 2)%nat
@@ -75,7 +76,7 @@ Definition in_domain (k : case) : bool :=
 Definition model_roundtrip (k : case) : bool :=
   let cmds := map mk_cmd (k_cmds k) in
   let root := k_root k in
-  match ParseTGData (serializeTG (k_tgid k) cmds) root with
+  match parseTGData (serializeTG (k_tgid k) cmds) root with
   | Ok (tgid, ws) => (tgid =? k_tgid k) && list_eqb wtset_eqb ws (map (to_wtset root) cmds)
   | _ => false
   end.
